@@ -108,10 +108,6 @@ Lemma cb_x86_shape md first rel rg m :
   | _ => True
   end.
 Proof.
-  unfold cb_x86. destruct (mdat md) as [|p sec|pe]; [reflexivity| |].
-  2:{ pose proof (pe_step_raw_shape pe rel first rg m) as H. unfold pe_step. cbn [fst].
-      destruct (fst (pe_step_raw true pe rel first rg m)); cbn [pe_restore unc_shape] in *; auto. }
-  unfold cb_dwarf.
   assert (W : forall f svma,
     match with_fde rule regs row_step_x86 uncovered_rule_x86 f svma first rg m with
     | CbUncacheable ra rg' =>
@@ -122,6 +118,15 @@ Proof.
     unfold row_step_x86. destruct (translate_x86 rw); [exact I|].
     pose proof (generic_x86_shape rw first rg m) as H.
     destruct (generic_x86 rw first rg m); auto; contradiction. }
+  unfold cb_x86. destruct (mdat md) as [|p sec|pe|d]; [reflexivity| | |].
+  2:{ pose proof (pe_step_raw_shape pe rel first rg m) as H. unfold pe_step. cbn [fst].
+      destruct (fst (pe_step_raw true pe rel first rg m)); cbn [pe_restore unc_shape] in *; auto. }
+  2:{ unfold MachoCb.cb_macho.
+      destruct (Macho.macho_cui _ _ _ _ _ d rel first); try reflexivity.
+      destruct (Macho.m_eh d) as [l|]; [|reflexivity].
+      destruct (MachoCb.eh_find l fde_offset) as [f|]; [|reflexivity].
+      destruct (add64p S_dwarf_svma_add (base_svma md) rel); cbn [fst]; try exact I. apply W. }
+  unfold cb_dwarf.
   destruct p.
   - unfold add64p. destruct (base_svma md + rel <? W64); cbn; [|reflexivity].
     destruct (hdr_lookup sec (base_svma md + rel)); cbn; [apply W | reflexivity].
